@@ -169,6 +169,28 @@ def build(reaction, cfg: dict):
     return r, b
 
 
+def subthreshold_energy_dependent_width(reaction, cfg: dict) -> bool:
+    """A lineshape with an energy-dependent width (normalised by rho(m0^2)) is assigned to a resonance whose tabulated mass lies
+    below the sum of the tabulated masses of its daughters in some transition (e.g. N(1650)+ -> K0 Sigma+): rho(m0^2) is the square
+    root of a negative number there and the real-dtype NumPy code returns NaN - a property of that parametrisation for closed
+    channels (see KF-C09), not of the symbol bookkeeping."""
+    kinds = {d["target"]: d["builder"] for d in cfg.get("dynamics") or []}
+    targets = {n for n, k in kinds.items() if k in ("bw_ff", "analytic", "bw_edw")}
+    if not targets:
+        return False
+    for t in reaction.transitions:
+        top = t.topology
+        for node in top.nodes:
+            pin = next(iter(top.get_edge_ids_ingoing_to_node(node)))
+            part = t.states[pin].particle
+            if part.name in targets:
+                kids = [t.states[c].particle.mass for c in top.get_edge_ids_outgoing_from_node(node)]
+                # daughters that are themselves resonances can be off shell: only final-state daughters bound the threshold from below
+                if part.mass < sum(kids):
+                    return True
+    return False
+
+
 def random_parameters(model, rng) -> dict:
     """Random complex couplings; masses/widths/radii near their defaults."""
     out = {}
